@@ -107,13 +107,20 @@ IsKnownFinding(ev) ==
         /\ IF ScOk(er) THEN ScCanon(ScResolve(er)) # ScCanon(ScResolve(s)) /\ Loaded(ev, "JC") /\ PrOf(ev, "JC") = ScCanon(ScResolve(er))
            ELSE ~Loaded(ev, "JC")
 
-Explained(ev) == ev.ev = "SchemaSyn" /\ (Core(ev, TRUE) \/ IsKnownFinding(ev))
+\* T binding: a schema file of the repository.  No abstract schema is known, so only the relation the property states is
+\* judged: every translation of a loadable file that succeeds reloads to the same schema (projection and library ==);
+\* translating the translation back does too.
+FileOk(ev) ==
+  /\ Has(ev, "S")
+  /\ \A k \in DOMAIN ev.steps \ {"S"} : TranslOk(ev, k, "S")
+  /\ \A k \in DOMAIN ev.lib_eq : ev.lib_eq[k]
+Explained(ev) == IF ev.ev = "SchemaFile" THEN FileOk(ev) ELSE ev.ev = "SchemaSyn" /\ (Core(ev, TRUE) \/ IsKnownFinding(ev))
 
 Init == l = 1 /\ bad = {} /\ kf = {}
 Next == /\ l <= Len(Rec)
         /\ l' = l + 1
         /\ bad' = IF Explained(Rec[l]) THEN bad ELSE bad \cup {l}
-        /\ kf' = IF IsKnownFinding(Rec[l]) THEN kf \cup {l} ELSE kf
+        /\ kf' = IF Rec[l].ev = "SchemaSyn" /\ IsKnownFinding(Rec[l]) THEN kf \cup {l} ELSE kf
 Report == (l = Len(Rec) + 1) => (PrintT(<<"TRACE-RESULT", Len(Rec), bad>>) /\ PrintT(<<"TRACE-KF", kf>>))
 Accepted == TLCGet("stats").diameter = Len(Rec) + 1
 ==============================================================================
